@@ -25,6 +25,10 @@ print(','.join(sorted(str(x) for x in s)))
 P
 )
   nf=$(grep -c "no-failing-input-found" /tmp/all_seeds_$$.log)
-  if [ $rc -eq 1 ]; then echo "$n caught clauses=$cl no-failing-input-lines=$nf"; else echo "$n MISSED rc=$rc"; fi
+  other=$(python3 -c "import json,sys; print(json.load(open('$here/seeded/$n/meta.json'))['check_result'].get('caught_by_other_check') or '')" 2>/dev/null)
+  known=$(python3 -c "import json,sys; d=json.load(open('$here/seeded/$n/meta.json'))['check_result']; print('yes' if d.get('caught') is False else '')" 2>/dev/null)
+  if [ $rc -eq 1 ]; then echo "$n caught clauses=$cl no-failing-input-lines=$nf";
+  elif [ -n "$known" ]; then echo "$n not-caught-by-its-own-check (recorded; other check: ${other:-none}) rc=$rc";
+  else echo "$n MISSED rc=$rc"; fi
 done
 rm -f /tmp/all_seeds_$$.log; rm -rf "$VERIF_EVIDENCE_DIR"
